@@ -18,7 +18,7 @@ CONSTANTS
   Cat,       \* names of the bundles of this scenario family
   Attr,      \* [Cat -> [origin, dst, prev, life, clockless, tsg, req, admin, rptlocal, hop, hasunk, unkf, copies]]
   Algo,      \* "epidemic" | "spray" | "binary_spray" | "prophet" | "dtlsr" | "mule" (sensor-mule wrapper around epidemic)
-             \* | "mule_spray" (sensor-mule wrapper around spray-and-wait)
+             \* | "mule_spray" | "mule_binary_spray" (sensor-mule wrapper around the spray-and-wait variants)
   Sensors,   \* mule: peers that are sensor nodes (only ever served by direct delivery)
   Budget,    \* spray-and-wait multiplicity L
   Enabled,   \* subset of action names this family explores
@@ -96,8 +96,8 @@ SetPending(w, b) == [w EXCEPT !.st[b].pending = TRUE]
 (* ---- routing algorithms ---- *)
 (* the sensor-mule wrapper hands every question to the algorithm it wraps and then strikes the sensor nodes from the answer, telling
    the wrapped algorithm that the transmission to each of them failed (so that a copy set aside for a sensor is taken back) *)
-Inner == IF Algo = "mule_spray" THEN "spray" ELSE Algo
-Eff(tg) == IF Algo = "mule_spray" THEN tg \ Sensors ELSE tg
+Inner == CASE Algo = "mule_spray" -> "spray" [] Algo = "mule_binary_spray" -> "binary_spray" [] OTHER -> Algo
+Eff(tg) == IF Algo \in {"mule_spray", "mule_binary_spray"} THEN tg \ Sensors ELSE tg
 Notify(w, b) ==
   LET a == Attr[b] IN
   CASE Algo \in {"epidemic", "prophet", "dtlsr", "mule"} ->
@@ -106,7 +106,7 @@ Notify(w, b) ==
          [w EXCEPT !.meta[b] = IF a.origin = "app"
                                THEN [has |-> TRUE, copies |-> Budget, sent |-> {}]
                                ELSE [has |-> TRUE, copies |-> 1, sent |-> IF a.prev # "none" THEN {a.prev} ELSE {}]]
-    [] Algo = "binary_spray" ->
+    [] Inner = "binary_spray" ->
          [w EXCEPT !.meta[b] = IF a.copies > 0
                                THEN [has |-> TRUE, copies |-> a.copies, sent |-> IF a.prev # "none" THEN {a.prev} ELSE {}]
                                ELSE [has |-> TRUE, copies |-> Budget, sent |-> IF a.prev # "none" THEN {a.prev} ELSE {}]]
@@ -119,7 +119,7 @@ Candidates(w, b) ==
     [] Algo = "epidemic" -> w.up \ w.st[b].sent
     [] Algo = "mule" -> (w.up \ w.st[b].sent) \ Sensors     \* sensors are filtered out (and reported back as failed, i.e. forgotten)
     [] Inner = "spray" -> IF w.meta[b].has /\ w.meta[b].copies >= 2 THEN w.up \ w.meta[b].sent ELSE {}
-    [] Algo = "binary_spray" -> IF w.meta[b].has /\ w.meta[b].copies >= 2 THEN w.up \ w.meta[b].sent ELSE {}
+    [] Inner = "binary_spray" -> IF w.meta[b].has /\ w.meta[b].copies >= 2 THEN w.up \ w.meta[b].sent ELSE {}
     [] Algo = "prophet" -> {p \in w.up \ w.st[b].sent :
                               peerv[p][Attr[b].dst] > (IF Attr[b].dst \in w.own THEN 2 ELSE 0)}
     [] Algo = "dtlsr" -> IF Attr[b].dst = "bcast" THEN w.up \ w.st[b].sent     \* link-state broadcasts go once to every peer
@@ -127,24 +127,24 @@ Candidates(w, b) ==
 Min(a, c) == IF a < c THEN a ELSE c
 HowMany(w, b) ==
   CASE Inner = "spray" -> Min(w.meta[b].copies - 1, Cardinality(Candidates(w, b)))
-    [] Algo = "binary_spray" -> Min(1, Cardinality(Candidates(w, b)))
+    [] Inner = "binary_spray" -> Min(1, Cardinality(Candidates(w, b)))
     [] OTHER -> Cardinality(Candidates(w, b))
 Choices(w, b) == {s \in SUBSET Candidates(w, b) : Cardinality(s) = HowMany(w, b)}
 EffChoices(w, b) == {Eff(s) : s \in Choices(w, b)}      \* what can be seen of a choice: the transmissions
 DeleteAfter(b) == Algo = "dtlsr" /\ Attr[b].dst # "bcast"    \* unicast hand-over releases the bundle
 
 (* memory update when the algorithm selected targets tg; announced = copies written into a binary-spray block *)
-Announced(w, b) == IF Algo = "binary_spray" THEN w.meta[b].copies \div 2 ELSE 0
+Announced(w, b) == IF Inner = "binary_spray" THEN w.meta[b].copies \div 2 ELSE 0
 Selected(w, b, tg) ==
   CASE Algo \in {"epidemic", "prophet", "mule"} -> [w EXCEPT !.st[b].sent = @ \cup tg]
     [] Inner = "spray" -> [w EXCEPT !.meta[b].sent = @ \cup tg, !.meta[b].copies = @ - Cardinality(tg)]
-    [] Algo = "binary_spray" -> IF tg = {} THEN w
+    [] Inner = "binary_spray" -> IF tg = {} THEN w
                                 ELSE [w EXCEPT !.meta[b].sent = @ \cup tg, !.meta[b].copies = @ - Announced(w, b)]
     [] Algo = "dtlsr" -> IF Attr[b].dst = "bcast" THEN [w EXCEPT !.st[b].sent = @ \cup tg] ELSE w
 Failed(w, b, p, ann) ==
   CASE Algo \in {"epidemic", "prophet", "dtlsr", "mule"} -> [w EXCEPT !.st[b].sent = @ \ {p}]
     [] Inner = "spray" -> IF w.meta[b].has THEN [w EXCEPT !.meta[b].sent = @ \ {p}, !.meta[b].copies = @ + 1] ELSE w
-    [] Algo = "binary_spray" -> IF w.meta[b].has THEN [w EXCEPT !.meta[b].sent = @ \ {p}, !.meta[b].copies = @ + ann] ELSE w
+    [] Inner = "binary_spray" -> IF w.meta[b].has THEN [w EXCEPT !.meta[b].sent = @ \ {p}, !.meta[b].copies = @ + ann] ELSE w
 
 RECURSIVE FailAll(_, _, _, _)
 FailAll(w, b, ps, ann) == IF ps = {} THEN w ELSE LET p == CHOOSE x \in ps : TRUE IN FailAll(Failed(w, b, p, ann), b, ps \ {p}, ann)
